@@ -21,6 +21,8 @@ CLAIMED = {
          "availability is taken from the implementation (its correctness is C11's subject); Select events during which availability changed concurrently are skipped; math/rand is seeded per run"),
  "C11": ("§6 C11", "Same world; the recorded history of dials, probes, selections, connection lifetimes and handler durations on the simulated clock is checked against a reference model of passive failure windows, active-check convergence, retry spacing/duration and connection limits; counters read through an accessor must never be negative.",
          "instants exactly on a window edge are skipped; limits are checked for connections in their relay phase; outages are 'connection refused' (net.Dial has no timeout, a blackhole would mean the OS default)"),
+ "C12": ("§6 C12", "Seeded simulation of the proxy_protocol matcher/handler and of the proxy handler's header emission (and their composition through a second simulated layer4 server), with headers from an independent encoder split/coalesced arbitrarily, allow lists, aborts mid-header, and an independent decoder at the upstream; payload integrity by the C01 oracle, addresses seen by handlers / ip matchers / placeholders, exact single header of the configured version with the effective addresses followed by the stream.",
+         "v1 UNKNOWN and v2 LOCAL/UNSPEC headers declare no addresses: what the third-party library reports then is not judged; v2 headers with TLVs are rejected by the library (connection closed), which the oracle accepts"),
 }
 NA = {
  "C07": "pure function of the ClientHello bytes (differential input testing against crypto/tls): no schedule, clock, fault or interleaving for a simulator to decide; its one schedule-dependent clause is exercised under C06",
@@ -28,7 +30,7 @@ NA = {
  "C15": "Caddyfile->JSON adaptation and JSON round trip are pure single-threaded functions of the configuration text",
  "C18": "FromBytes/ToBytes inverse laws are pure functions of byte strings",
 }
-PENDING = ["C04","C06","C08","C12","C16"]
+PENDING = ["C04","C06","C08","C16"]
 m = {
  "version": 1,
  "setup_cmd": "./check build",
